@@ -98,6 +98,10 @@ def check_loads(ae, ref, where, runs=None):
                             f'{where}: load {task}.{name}.{sv.name()}.{vn} target={target} run={run} returned {got!r}, expected {want!r} (stored for this identity: {cands})',
                         )
                         rt.require(type(sv[vn]).__name__ == f'Val_{task}_{name}_{sv.name()}_{vn}', 'c06:foreign-type', f'{where}: value object of another author loaded')
+                        # what a client does next with a loaded value is its own business: it may change it in place
+                        # (and store it later); that must never show through a later load of anything
+                        if got is not None:
+                            sv[vn].content = 'changed-in-place-by-the-client'
 
 
 def hist_body(prop, k, sel, dup=False):
